@@ -20,7 +20,10 @@ HOSTILE = ['', ' ', 'abc', '-', '1e999', '9' * 400, '2020-13-45', '2020-01-01T25
            'P1Y2M3DT4H5M6.7S', '-P1D', '!!!!', 'A', 'AAE', 'zz', 'true', 'null', '\u0000', '�', '1_0', '٣',
            'NaN', 'INF', '0x10', '1.5.5', '--1', '+', '12345678-1234-1234-1234-123456789abcX',
            '2020-01-01T00:00:00+99:99', '2020-01-01T00:00:00-00:60', '0000-00-00', '10000-01-01', '1e5', '-0',
-           '2020-02-30', '2020-01-01T24:00:00', '99:99:99', 'P1.5D', '1,5', 'Infinity', '256', '-129', '70000']
+           '2020-02-30', '2020-01-01T24:00:00', '99:99:99', 'P1.5D', '1,5', 'Infinity', '256', '-129', '70000',
+           # values whose conversion overflows rather than fails to parse
+           'P9999999999D', '-P2739727Y', 'P1Y99999999999999M', 'PT1e9999S', '9' * 5000 + '.5', '1e99999', '-1e-99999',
+           '99999-12-31T00:00:00', '2020-01-01T00:00:00.' + '9' * 400, '1' * 4500]
 RAN = []
 
 
@@ -295,10 +298,13 @@ def run(ctx):
         for val in ('soft', None):
             app = mkapp(fam.mk_in(validator=val), fam.mk_out())
             w = WsgiApplication(app)
+            wsmall = WsgiApplication(app, max_content_length=64, block_length=16)
             sb = ServerBase(app)
             cases = corpus(fam, ctx.quick)
+            if fam.kind != 'flat':
+                cases = cases + [('toolong:' + c[0], dict(c[1], _small=True), c[2]) for c in cases[:3] if len(c[2]) > 64]
             for label, envx, body in cases:
-                for tr in (('wsgi',) if fam.kind == 'flat' else ('wsgi', 'base')):
+                for tr in (('wsgi',) if fam.kind == 'flat' or envx.get('_small') else ('wsgi', 'base')):
                     del RAN[:]
                     log = []
                     status = [0]
@@ -312,8 +318,9 @@ def run(ctx):
                                    'wsgi.url_scheme': 'http', 'SERVER_NAME': 'x', 'SERVER_PORT': '80',
                                    'CONTENT_LENGTH': str(len(body))}
                             env.update(envx)
+                            small = env.pop('_small', False)
                             st = []
-                            o = b''.join(w(env, lambda s, h, e=None: st.append(s)))
+                            o = b''.join((wsmall if small else w)(env, lambda s, h, e=None: st.append(s)))
                             return int(st[0].split()[0]), o, None
                         c = MethodContext(sb, MethodContext.SERVER)
                         c.in_string = [body]
@@ -338,7 +345,8 @@ def run(ctx):
                     if isfault and not escaped:
                         ok, code = fault_doc(fam, out)
                     k = {'tr': tr, 'rpc': True, 'soap': fam.name.startswith('soap'), 'done': not escaped,
-                         'fault': bool(isfault), 'code': code if isfault else [], 'status': status[0], 'faultDocOk': ok}
+                         'fault': bool(isfault), 'code': code if isfault else [], 'status': status[0], 'faultDocOk': ok,
+                         'mayEscape': False}
                     recs.append({'obs': log, 'k': k})
                     meta.append((fam, val, label, tr, body, envx, site if escaped else None, once))
     fails = pc.monitor(ctx, recs, ['FuzzOutcome', 'FnAtMostOnce', 'NoEscape'], chunk=20000)
